@@ -195,7 +195,7 @@ def mesh_edges(faces):
 
 def ugrid(mesh='tq', *, start_index=0, fill='nan', transposed=False, with_edges=None,
           edge_dimension_attr=True, supply=(), node_x=None, node_y=None, face_xy=None,
-          data_vars=None, attrs=None, coords_as_coords=False, dtype='int32', edge_order=None, fill_value=None, edge_face_fill_first=False, edge_marker=True, start_index_by_table=None):
+          data_vars=None, attrs=None, coords_as_coords=False, dtype='int32', edge_order=None, fill_value=None, edge_face_fill_first=False, edge_marker=True, start_index_by_table=None, start_index_as_text=False):
     """UGRID 2-D mesh.
 
     fill: 'nan' (float connectivity with NaN, as xarray decodes _FillValue),
@@ -231,6 +231,9 @@ def ugrid(mesh='tq', *, start_index=0, fill='nan', transposed=False, with_edges=
                 if v is not None:
                     arr[r, c] = v + start_index
         at = dict(start_index=start_index) if start_index else {}
+        if start_index_as_text:
+            # some files store the attribute as the text "0" / "1" (tolerated, with a warning)
+            at = dict(start_index=str(start_index))
         at.update(extra_attrs or {})
         has_fill = (arr == FILL).any()
         if fill == 'nan':
